@@ -754,6 +754,61 @@ func (sc *Scope) call(n *ast.CallExpr) Val {
 				r.L[i] = ite(c, a.L[i], b.L[i])
 			}
 			return r
+		case "trApp":
+			if len(n.Args) != 2 {
+				return sc.fail("trApp arity")
+			}
+			a, b := sc.expr(n.Args[0]), sc.expr(n.Args[1])
+			if len(a.L) != 1 || len(b.L) != 1 {
+				return sc.fail("trApp arguments")
+			}
+			return Val{T: types.Typ[types.Uint64], L: []string{e.trApp(a.L[0], b.L[0])}}
+		case "trEmpty":
+			e.uf("TR!empty", "", bv64)
+			return Val{T: types.Typ[types.Uint64], L: []string{"TR!empty"}}
+		case "trFlat":
+			if len(n.Args) != 1 {
+				return sc.fail("trFlat arity")
+			}
+			a := sc.expr(n.Args[0])
+			if len(a.L) != 1 {
+				return sc.fail("trFlat argument")
+			}
+			e.uf("TR!flat", bv64s, bv64)
+			return Val{T: types.Typ[types.Uint64], L: []string{app("TR!flat", a.L[0])}}
+		case "chU":
+			if len(n.Args) != 2 {
+				return sc.fail("chU arity")
+			}
+			w := sc.expr(n.Args[0])
+			v := sc.expr(n.Args[1])
+			if w.C == nil || len(v.L) != 1 || !isInt(v.T) {
+				return sc.fail("chU(width constant, integer)")
+			}
+			return Val{T: types.Typ[types.Uint64], L: []string{e.chU(int(w.C.Int64()), resize(v.L[0], widthOf(v.T), 64, false))}}
+		case "chBytes":
+			a := sc.expr(n.Args[0])
+			if a.Loc != nil {
+				a = e.load(&sc.st, a.Loc)
+			}
+			if !isSliceLike(a.T) && !isString(a.T) {
+				return sc.fail("chBytes of %s", typeKey(a.T))
+			}
+			return Val{T: types.Typ[types.Uint64], L: []string{e.chBytes(a)}}
+		case "chEnc":
+			a := sc.expr(n.Args[0])
+			if a.Loc != nil {
+				return sc.fail("chEnc of structural value")
+			}
+			if !isIface(a.T) {
+				// a concrete pointer: box it with its type tag
+				if !isPtr(a.T) || len(a.L) != 1 {
+					return sc.fail("chEnc needs an interface or pointer value")
+				}
+				a = Val{T: a.T, L: []string{e.typeID(a.T), a.L[0]}}
+			}
+			st := sc.st
+			return Val{T: types.Typ[types.Uint64], L: []string{e.chEnc(a, &st)}}
 		case "ref":
 			// ref(x): the region/object reference of a slice or pointer (for aliasing statements)
 			a := sc.expr(n.Args[0])
